@@ -108,6 +108,9 @@ def audit(pid):
 # ------------------------------------------------------------------ implementation side
 
 def harness_bin(variant):
+    # tools/coverage.sh measures which lines of /repo/src the families execute with an instrumented build
+    if variant != "f32" and os.environ.get("VERIF_COV_BIN"):
+        return os.environ["VERIF_COV_BIN"]
     return os.path.join(HARNESS, "target-f32" if variant == "f32" else "target", "debug", "corgi-harness")
 
 
